@@ -144,11 +144,25 @@ DIVERGE_PREFIXES = ("core::panicking::", "core::option::expect_failed", "core::r
                     "core::slice::index::slice_", "alloc::alloc::handle_alloc_error", "core::hint::unreachable_unchecked")
 
 
+def m_iter_next(view, t, av):
+    """`next` on an iterator over a slice (possibly through rev/zip/map/copied/enumerate/chunks adaptors):
+    whether an item exists depends on the remaining length only, the item on the content."""
+    a0 = av[0] if av else Val()
+    out = Val({("#d",): v_len(a0), ("0",): v_flat(a0), LEN: v_len(a0)})
+    return out, {}, ()
+
+
 def model(view, t, argvals):
     name = mir.callee_name(t)
     if name is None:
         return None
     n = norm_id(name)
+    f0 = t["f"]
+    if f0.get("trait") in ("core::iter::Iterator", "core::iter::DoubleEndedIterator") and \
+            mir.last_seg(f0["decl"]) in ("next", "next_back"):
+        st = f0.get("self") or ""
+        if "core::ops::Range" not in st and "core::iter::range" not in name and "Step" not in st:
+            return m_iter_next(view, t, argvals)
     m = EXACT.get(n)
     if m is not None:
         return m(view, t, argvals)
